@@ -604,7 +604,7 @@ class Acl(AceGroup):
             return: "ip access-list NAME"
         """
         items = ["ip access-list"]
-        if self._platform == "ios":
+        if self._platform != "nxos":  # the header is parsed with a type on every platform but nxos
             items.append(self._type)
         items.append(self._name)
         return " ".join(items)
